@@ -540,7 +540,9 @@ func toProto(fdesc protoreflect.FieldDescriptor, v starlark.Value) (protoreflect
 			return protoreflect.ValueOfString(s), nil
 		} else if b, ok := v.(starlark.Bytes); ok {
 			// TODO(adonovan): allow bytes for string? Not friendly to a Java port.
-			return protoreflect.ValueOfBytes([]byte(b)), nil
+			// The protoreflect value of a string field must be a string:
+			// Message.Set, List.Append and Map.Set panic on a []byte.
+			return protoreflect.ValueOfString(string(b)), nil
 		}
 
 	case protoreflect.BytesKind:
